@@ -300,6 +300,7 @@ type Stats struct {
 	Executions, Divergent, Retries, StepCapped int64
 	ByCost                                     map[int]int64
 	Outcomes                                   map[string]int64
+	PerScenario                                map[string]int64
 	Nontrivial                                 map[string]bool
 	MaxDepth                                   int
 	Exhaustive                                 bool
@@ -332,7 +333,7 @@ type Explorer struct {
 
 func NewExplorer(t *testing.T, bound int) *Explorer {
 	return &Explorer{T: t, Bound: bound, Quantum: 100 * time.Millisecond, Horizon: 30 * time.Second, MaxSteps: 400, NShard: 1,
-		Stats: Stats{ByCost: map[int]int64{}, Outcomes: map[string]int64{}, Nontrivial: map[string]bool{}, Exhaustive: true}, seenSig: map[string]bool{}}
+		Stats: Stats{PerScenario: map[string]int64{}, ByCost: map[int]int64{}, Outcomes: map[string]int64{}, Nontrivial: map[string]bool{}, Exhaustive: true}, seenSig: map[string]bool{}}
 }
 
 type execResult struct {
@@ -397,6 +398,7 @@ func (e *Explorer) explore(sc *Scenario, prefix []int, expect [][]string, costSo
 	}
 	x := r.ctl
 	e.Stats.Executions++
+	e.Stats.PerScenario[sc.Name]++
 	if x.HitStepCap {
 		e.Stats.StepCapped++
 		e.Stats.Exhaustive = false
